@@ -50,8 +50,10 @@ TIMEOUT = 60
 
 def bounds(tier):
     if tier == "thorough":
-        return dict(N=64, big=(65, 127, 128, 129, 255, 256, 257, 511, 512, 513, 1023, 1024), rt=(1, 2, 3, 4, 5, 6, 7, 8))
-    return dict(N=24, big=(), rt=(1, 2, 3, 5))
+        return dict(N=64, big=(65, 127, 128, 129, 130, 131, 132, 133, 134, 135, 136, 137, 138, 139, 140, 200, 255, 256, 257, 258, 259, 260, 261, 262, 263, 264, 511, 512, 513, 1023, 1024), rt=(1, 2, 3, 4, 5, 6, 7, 8))
+    # quick: a few tree sizes beyond the exhaustive range, none of them a power of two only (levels wider than 64 with odd node counts), for
+    # the first key, the default prefix and distinct leaves
+    return dict(N=24, big=(65, 100, 129, 130, 131, 135, 200, 257, 258, 263), rt=(1, 2, 3, 5))
 
 
 def big_indices(n):
@@ -164,6 +166,8 @@ def make_jobs(tier):
                 for n in range(1, (min(b["N"], 8 if tier == "quick" else 16) if pat in ("spelled", "emptyleaf", "zeroprefix") else b["N"]) + 1):
                     jobs.append(dict(ki=ki, pattern=pat, n=n, pi=pi, indices=list(range(n))))
                 for n in (() if pat in ("spelled", "emptyleaf", "zeroprefix") else b["big"]):
+                    if tier == "quick" and not (ki == 0 and pi == 0 and pat == "distinct"):
+                        continue
                     jobs.append(dict(ki=ki, pattern=pat, n=n, pi=pi, indices=big_indices(n)))
             for pat in RT_PATTERNS:
                 for n in b["rt"]:
